@@ -32,6 +32,10 @@ var c17Guard = time.Duration(verifx.EnvInt("VERIF_C17_GUARD", 90)) * time.Second
 type c17Session struct {
 	plan     *verifx.C17Plan
 	lockstep bool
+	// abort is shared by the sessions of one behaviour: closed when the handler under test panicked
+	// or the scheduler gave up, it releases every inner handler still held in lockstep
+	abort chan struct{}
+	once  *sync.Once
 	step     chan struct{}
 	ack      chan struct{}
 }
@@ -63,11 +67,29 @@ func (e *c17Env) oracle(format string, a ...any) {
 	verifx.Emit(map[string]any{"kind": "oracle", "msg": fmt.Sprintf(format, a...)})
 }
 
-func c17Wait(ch chan struct{}) bool {
+func (s *c17Session) kill() {
+	if s.once != nil {
+		s.once.Do(func() { close(s.abort) })
+	}
+}
+
+// c17Wait waits for ch; it returns false when the behaviour was aborted or the guard time passed.
+func c17Wait(ch chan struct{}, abort chan struct{}) bool {
 	select {
 	case <-ch:
 		return true
+	case <-abort:
+		return false
 	case <-time.After(c17Guard):
+		return false
+	}
+}
+
+func c17Aborted(abort chan struct{}) bool {
+	select {
+	case <-abort:
+		return true
+	default:
 		return false
 	}
 }
@@ -84,8 +106,15 @@ func (e *c17Env) inner(w http.ResponseWriter, r *http.Request) {
 		return
 	}
 	s.plan.Serve(w, func(int) {
-		s.ack <- struct{}{} // arrived / previous op performed
-		<-s.step            // permission for the next op / for returning
+		select {
+		case s.ack <- struct{}{}: // arrived / previous op performed
+		case <-s.abort:
+			return
+		}
+		select {
+		case <-s.step: // permission for the next op / for returning
+		case <-s.abort:
+		}
 	})
 }
 
@@ -149,8 +178,20 @@ func (e *c17Env) run(b *verifx.C17Beh, n int64, big bool) ([]*verifx.C17Plan, []
 		}
 	}
 	lockstep := started > 1
+	abort, once := make(chan struct{}), &sync.Once{}
 	ids := make([]string, nh)
 	defer func() {
+		once.Do(func() { close(abort) }) // releases whatever is still held
+		for i := range done {
+			if done[i] == nil {
+				continue
+			}
+			select {
+			case <-done[i]: // res[i] is written before done[i] is closed
+			case <-time.After(c17Guard):
+				plans[i] = nil // its result must not be read
+			}
+		}
 		for _, id := range ids {
 			if id != "" {
 				e.sessions.Delete(id)
@@ -159,7 +200,7 @@ func (e *c17Env) run(b *verifx.C17Beh, n int64, big bool) ([]*verifx.C17Plan, []
 	}()
 	begin := func(i int) bool {
 		plans[i] = verifx.C17MakePlan(b, i, n, big)
-		s := &c17Session{plan: plans[i], lockstep: lockstep, step: make(chan struct{}), ack: make(chan struct{})}
+		s := &c17Session{plan: plans[i], lockstep: lockstep, step: make(chan struct{}), ack: make(chan struct{}), abort: abort, once: once}
 		sess[i] = s
 		ids[i] = fmt.Sprintf("s%d", atomic.AddInt64(&e.seq, 1))
 		e.sessions.Store(ids[i], s)
@@ -169,8 +210,10 @@ func (e *c17Env) run(b *verifx.C17Beh, n int64, big bool) ([]*verifx.C17Plan, []
 			res[i] = &r
 			close(done[i])
 		}()
-		if lockstep && !c17Wait(s.ack) {
-			e.oracle("handler %d never reached the inner handler", i+1)
+		if lockstep && !c17Wait(s.ack, abort) {
+			if !c17Aborted(abort) {
+				e.oracle("handler %d never reached the inner handler", i+1)
+			}
 			return false
 		}
 		return true
@@ -180,13 +223,19 @@ func (e *c17Env) run(b *verifx.C17Beh, n int64, big bool) ([]*verifx.C17Plan, []
 		if lockstep {
 			select {
 			case sess[i].step <- struct{}{}:
+			case <-abort:
 			case <-time.After(c17Guard):
 				e.oracle("handler %d does not take the permission to return", i+1)
 				return false
 			}
 		}
-		if !c17Wait(done[i]) {
+		select {
+		case <-done[i]:
+		case <-time.After(c17Guard):
 			e.oracle("client of handler %d got no complete response within the guard time", i+1)
+			return false
+		}
+		if c17Aborted(abort) {
 			return false
 		}
 		finished[i] = true
@@ -216,12 +265,16 @@ func (e *c17Env) run(b *verifx.C17Beh, n int64, big bool) ([]*verifx.C17Plan, []
 		case "wh", "w":
 			select {
 			case sess[i].step <- struct{}{}:
+			case <-abort:
+				return plans, res, false
 			case <-time.After(c17Guard):
 				e.oracle("handler %d does not take the permission for %s", i+1, ev.Ev)
 				return plans, res, false
 			}
-			if !c17Wait(sess[i].ack) {
-				e.oracle("handler %d did not complete %s", i+1, ev.Ev)
+			if !c17Wait(sess[i].ack, abort) {
+				if !c17Aborted(abort) {
+					e.oracle("handler %d did not complete %s", i+1, ev.Ev)
+				}
 				return plans, res, false
 			}
 		case "finish":
@@ -248,7 +301,11 @@ func TestVerifC17(t *testing.T) {
 	env.srv = httptest.NewUnstartedServer(http.HandlerFunc(func(w http.ResponseWriter, r *http.Request) {
 		defer func() {
 			if p := recover(); p != nil {
-				env.panics.Store(r.Header.Get("X-C17-Session"), fmt.Sprintf("%v\n%s", p, debug.Stack()))
+				id := r.Header.Get("X-C17-Session")
+				env.panics.Store(id, fmt.Sprintf("%v\n%s", p, debug.Stack()))
+				if v, ok := env.sessions.Load(id); ok {
+					v.(*c17Session).kill()
+				}
 				panic(http.ErrAbortHandler)
 			}
 		}()
@@ -291,6 +348,17 @@ func TestVerifC17(t *testing.T) {
 				}
 				plans, res, ok := env.run(&b, n, big)
 				if !ok {
+					// not executed as scheduled; a recorded panic of the handler under test is still a verdict
+					for i, p := range plans {
+						if p == nil || res[i] == nil {
+							continue
+						}
+						if msg := res[i].panicked; msg != "" {
+							bb := b
+							bb.N, bb.Via = n, "gzip"
+							verifx.Fail(bb, p.Features("gzip", "handler-panic"), "handler %d of %d: the gzip handler panicked: %s\n  %s", i+1, len(plans), msg, p.Describe())
+						}
+					}
 					continue
 				}
 				atomic.AddInt64(&behs, 1)
